@@ -310,3 +310,5 @@ func discardAny(v any) {
 		discardHeaders(&m.Headers)
 	}
 }
+
+func bridgeToGoImpl(v rc.Val) any { return bridge.ToGo(v) }
